@@ -165,6 +165,21 @@ func (w *vfc47World) remove(path string) error {
 	return os.Remove(path)
 }
 
+// move relocates a file (same bytes) with rename(2); an existing destination is replaced.
+func (w *vfc47World) move(src, dst string) error {
+	if err := os.MkdirAll(filepath.Dir(dst), 0o777); err != nil {
+		return err
+	}
+	if err := os.Rename(src, dst); err != nil {
+		return err
+	}
+	w.files[dst] = w.files[src]
+	delete(w.files, src)
+	delete(w.prev, src)
+	delete(w.prev, dst)
+	return nil
+}
+
 func (w *vfc47World) inDir(dir string, recursive bool) []string {
 	var out []string
 	for p := range w.files {
@@ -240,10 +255,10 @@ type vfc47Model struct {
 func TestVF_C47(t *testing.T) {
 	r := vfkit.Start(t, "C47")
 	defer r.Finish()
-	r.Rule("case = a history of 1..12 steps {edit / rewrite-same / revert the config file, add/edit/remove a file in a config dir, edit/remove a file below a watched dir, change an env value, " +
-		"make the next 1..2 reloads fail, apply} over real temp files, for config file only / dirs only / both / with watched dir, gzip inputs, with and without tolerance of unset variables; " +
+	r.Rule("case = a history of 1..12 steps {edit / rewrite-same / revert the config file, add/edit/remove a file in a config dir, write/remove/move (same name and bytes, to another watched dir or sub-directory)/swap-contents of files below 1..2 watched dirs, move a file between two config dirs, change an env value, " +
+		"make the next 1..2 reloads fail, apply} over real temp files, for config file only / dirs only / both / with watched dirs, gzip inputs, with and without tolerance of unset variables; " +
 		"the real Reloader.apply is the logical step, a fake TriggerReloader is installed as r.tr; oracle: per apply a reload attempt is seen iff raw input content differs from the content at the " +
-		"last successful reload or a failed reload is pending (first apply and env-only changes: either); after the history, two healthy applies, then every output equals its input " +
+		"last successful reload (content is keyed by path: a relocated file is a change) or a failed reload is pending (first apply and env-only changes: either); after the history, two healthy applies, then every output equals its input " +
 		"decompressed with $(VAR) substituted by the oracle's own expander, no output without input, and a third apply attempts no reload; distinct = hash of the history; " +
 		"non-trivial = fixed point reached and at least 2 applies had a definite expectation")
 	n := r.N(500, 20000) // real temp files: 10 ms (idle box) to 150 ms (loaded box) per history in this sandbox
@@ -308,6 +323,9 @@ func vfc47Case(r *vfkit.Run, c int, rng *rand.Rand, w *vfc47World, wit map[strin
 	}
 	if strings.Contains(mode, "watched") {
 		w.watched = append(w.watched, mk(filepath.Join(w.root, "w0")))
+		if rng.Intn(2) == 0 {
+			w.watched = append(w.watched, mk(filepath.Join(w.root, "w1")))
+		}
 	}
 	wit["mode"], wit["tolerate_unset"] = mode, w.tolerate
 	u, _ := url.Parse("http://127.0.0.1:1/-/reload")
@@ -422,9 +440,12 @@ func vfc47Case(r *vfkit.Run, c int, rng *rand.Rand, w *vfc47World, wit map[strin
 		}
 		if len(w.cfgDirs) > 0 {
 			kinds = append(kinds, "dir-write", "dir-write", "dir-write", "dir-remove", "dir-same", "dir-revert")
+			if len(w.cfgDirs) > 1 {
+				kinds = append(kinds, "dir-move")
+			}
 		}
 		if len(w.watched) > 0 {
-			kinds = append(kinds, "watched-write", "watched-write", "watched-remove")
+			kinds = append(kinds, "watched-write", "watched-write", "watched-remove", "watched-move", "watched-move", "watched-swap")
 		}
 		kinds = append(kinds, "env", "fail", "apply", "apply", "apply")
 		werr := error(nil)
@@ -467,13 +488,57 @@ func vfc47Case(r *vfkit.Run, c int, rng *rand.Rand, w *vfc47World, wit map[strin
 					logf("revert %s to previous content %q", rel(p), pv.Plain)
 				}
 			}
+		case "dir-move": // same name, same bytes, other config directory
+			from := rng.Intn(len(w.cfgDirs))
+			fs := w.inDir(w.cfgDirs[from].Dir, false)
+			if len(fs) == 0 {
+				break
+			}
+			p := vfkit.Pick(rng, fs)
+			dst := filepath.Join(w.cfgDirs[(from+1)%len(w.cfgDirs)].Dir, filepath.Base(p))
+			werr = w.move(p, dst)
+			logf("move %s -> %s", rel(p), rel(dst))
+		case "watched-move": // relocation only: same base name, same bytes, another watched dir or sub-directory
+			var fs []string
+			for _, d := range w.watched {
+				fs = append(fs, w.inDir(d, true)...)
+			}
+			if len(fs) == 0 {
+				break
+			}
+			p := vfkit.Pick(rng, fs)
+			var dsts []string
+			for _, d := range w.watched {
+				for _, sub := range []string{"", "sub", "sub/deep", "other"} {
+					if dst := filepath.Join(d, sub, filepath.Base(p)); dst != p {
+						dsts = append(dsts, dst)
+					}
+				}
+			}
+			dst := vfkit.Pick(rng, dsts)
+			werr = w.move(p, dst)
+			logf("move %s -> %s", rel(p), rel(dst))
+		case "watched-swap": // two files exchange their contents
+			var fs []string
+			for _, d := range w.watched {
+				fs = append(fs, w.inDir(d, true)...)
+			}
+			if len(fs) < 2 {
+				break
+			}
+			fs = vfkit.Perm(rng, fs)
+			a, b := w.files[fs[0]], w.files[fs[1]]
+			if werr = w.write(fs[0], b); werr == nil {
+				werr = w.write(fs[1], a)
+			}
+			logf("swap contents of %s and %s", rel(fs[0]), rel(fs[1]))
 		case "watched-write":
-			p := filepath.Join(w.watched[0], vfkit.Pick(rng, []string{"x.yml", "sub/y.yml", "sub/deep/z.yml"}))
+			p := filepath.Join(vfkit.Pick(rng, w.watched), vfkit.Pick(rng, []string{"x.yml", "x.yml", "sub/x.yml", "sub/y.yml", "sub/deep/z.yml"}))
 			f := vfc47Content(rng, false)
 			werr = w.write(p, f)
 			logf("write %s %q", rel(p), f.Plain)
 		case "watched-remove":
-			fs := w.inDir(w.watched[0], true)
+			fs := w.inDir(vfkit.Pick(rng, w.watched), true)
 			if len(fs) > 0 {
 				p := vfkit.Pick(rng, fs)
 				werr = w.remove(p)
